@@ -43,3 +43,58 @@ def correspond(ctx):
             else:
                 io = ("ok", _norm(exprio.show_state(insts[0])))
             ctx.corr("program:" + p.NAME, tok, mo, io)
+            if r[0] == "ok" and len(insts) == 1:
+                glue(ctx, m, p, pb, tok, r[1], insts[0])
+
+
+def glue(ctx, m, p, pb, tok, ret, sv):
+    """the part of solve_<p> the program model does not contain: after everything is posted the function asks the
+    Solver exactly once (solve()), hands back that verdict unchanged, and returns exactly the answer-key variables.
+    Skipping solve() is accepted only when False is returned and the posted program has no model (z3 through the
+    independent translation, 20 s); if it has one and the extracted rules accept the grid it reads as, the instance is a
+    concrete violation of the property (a rule-obeying grid exists, the function reports none)."""
+    import c11lib as L
+    final = (len(sv.variables), len(sv.constraints), tuple(sv.is_answer_key))
+    kids = [i for i, k in enumerate(sv.is_answer_key) if k]
+    try:
+        aids = sorted(v.id for v in L.flat_vars(L.answer_arrays(p, ret)))
+    except Exception as ex:  # noqa
+        aids = "unreadable: %s" % type(ex).__name__
+    ctx.corr("glue:answer-arrays:" + p.NAME, tok, kids, aids)
+    log = sv.solve_log
+    if len(log) == 1:
+        ctx.count("glue:solve-once")
+        ctx.corr("glue:solve-sees-whole-program:" + p.NAME, tok, ("solve",) + final, log[0])
+        ctx.corr("glue:verdict-returned:" + p.NAME, tok, True, ret[0] is L.CAPTURE_VERDICT)
+        return
+    if len(log) > 1:
+        ctx.corr("glue:solve-calls:" + p.NAME, tok, 1, len(log))
+        return
+    # no call at all: only right when the program cannot be satisfied and False is what comes back
+    ctx.count("glue:no-solve-call")
+    if ret[0] is not False:
+        ctx.corr("glue:no-solve-call-returns:" + p.NAME, tok, False, repr(ret[0]))
+        return
+    z3 = L.z3mod()
+    zs, zv = L.z3_problem(sv)
+    zs.set("timeout", 20000)
+    res = zs.check()
+    if res == z3.unsat:
+        ctx.count("glue:no-solve-call:program-unsat")
+        return
+    if res != z3.sat:
+        ctx.count("glue:no-solve-call:undecided")
+        return
+    mdl = zs.model()
+    grid = []
+    for v in L.flat_vars(L.answer_arrays(p, ret)):
+        val = mdl.eval(zv[v.id], model_completion=True)
+        grid.append((1 if z3.is_true(val) else 0) if z3.is_bool(val) else val.as_long())
+    obeys = m.call("R %s %s | %s" % (p.NAME, tok, " ".join(map(str, grid))))
+    ctx.corr("glue:no-solve-call-on-satisfiable-program:" + p.NAME, tok, "solve() called", "returned False without asking the solver")
+    if obeys.strip() == "1":
+        key = p.classify(pb, "glue") if hasattr(p, "classify") else "%s:%s" % (p.NAME, tok)
+        ctx.violation(key if len(key) < 120 else key[:100] + "#glue",
+                      "solve_%s reports no solution without asking the solver, but a rule-obeying grid exists" % p.NAME,
+                      {"problem": pb, "rule_obeying_grid": grid,
+                       "expected": {"has_solution": True}, "observed": {"has_solution": False, "solve_called": False}})
